@@ -153,6 +153,9 @@ func (cse *connectivityStateEvaluator) recordTransition(
 // subConnRef keeps reference to the real SubConn with its
 // connectivity state, affinity count and streams count.
 type subConnRef struct {
+	// mu guards lastResp and refreshCnt. It also guards subConn for readers that do
+	// not hold gcpBalancer.mu: subConn is only written with both locks held.
+	mu          sync.RWMutex
 	subConn     balancer.SubConn
 	stateSignal chan struct{} // This channel is closed and re-created when subConn or its state changes.
 	affinityCnt int32         // Keeps track of the number of keys bound to the subConn.
@@ -191,7 +194,29 @@ func (ref *subConnRef) deCallsInc() uint32 {
 	return atomic.AddUint32(&ref.deCalls, 1)
 }
 
+// getSubConn returns the current SubConn of the ref. It is for callers that do not
+// hold gcpBalancer.mu.
+func (ref *subConnRef) getSubConn() balancer.SubConn {
+	ref.mu.RLock()
+	defer ref.mu.RUnlock()
+	return ref.subConn
+}
+
+func (ref *subConnRef) getLastResp() time.Time {
+	ref.mu.RLock()
+	defer ref.mu.RUnlock()
+	return ref.lastResp
+}
+
+func (ref *subConnRef) getRefreshCnt() uint32 {
+	ref.mu.RLock()
+	defer ref.mu.RUnlock()
+	return ref.refreshCnt
+}
+
 func (ref *subConnRef) gotResp() {
+	ref.mu.Lock()
+	defer ref.mu.Unlock()
 	ref.lastResp = time.Now()
 	atomic.StoreUint32(&ref.deCalls, 0)
 	ref.refreshCnt = 0
@@ -513,7 +538,9 @@ func (gb *gcpBalancer) UpdateSubConnState(sc balancer.SubConn, scs balancer.SubC
 		delete(gb.scRefs, oldSc)
 		delete(gb.scStates, oldSc)
 		gb.scRefs[sc] = scRef
+		scRef.mu.Lock()
 		scRef.subConn = sc
+		scRef.mu.Unlock()
 		// Affinity keys and fallback mappings follow the subConnRef to the fresh SubConn.
 		for k, v := range gb.affinityMap {
 			if v == oldSc {
@@ -526,9 +553,11 @@ func (gb *gcpBalancer) UpdateSubConnState(sc balancer.SubConn, scs balancer.SubC
 			}
 		}
 		atomic.StoreUint32(&scRef.deCalls, 0)
+		scRef.mu.Lock()
 		scRef.lastResp = time.Now()
-		scRef.refreshing = false
 		scRef.refreshCnt++
+		scRef.mu.Unlock()
+		scRef.refreshing = false
 		gb.cc.RemoveSubConn(oldSc)
 	}
 
